@@ -365,7 +365,15 @@ func buildMrzi(docNum, docNumCD, dob, dobCD, expiry, expiryCD string) (string, e
 	if err := verifyCheckdigit(expiry, expiryCD); err != nil {
 		return "", err
 	}
-	return docNum + docNumCD + dob + dobCD + expiry + expiryCD, nil
+	// an unset ('<') check digit is only accepted for an empty field, whose
+	// computed check digit is 0: emit that, as EncodeMrzi does
+	set := func(cd string) string {
+		if cd == "<" {
+			return "0"
+		}
+		return cd
+	}
+	return docNum + set(docNumCD) + dob + set(dobCD) + expiry + set(expiryCD), nil
 }
 
 func extractMrziTD1(mrz string) (string, error) {
